@@ -48,6 +48,7 @@ def layout_cfg(tier: str) -> S.SchemaCfg:
         max_fields=5,
         enum_max_bits=63,
         units=True,
+        dup_ids=True,
     )
 
 
